@@ -1,6 +1,7 @@
 use std::net::Ipv4Addr;
 use std::net::SocketAddrV4;
 
+use anyhow::bail;
 use config::SslConfig;
 use log::error;
 use log::info;
@@ -28,6 +29,9 @@ pub async fn main() -> anyhow::Result<()> {
         Some(host) => format!("{}:{}", host, config.port).parse()?,
         None => SocketAddrV4::new(Ipv4Addr::LOCALHOST, config.port),
     };
+    if config.mode.enable_quic() {
+        bail!("mode {} is a server mode; a client listens on tcp, udp or tcp_and_udp", config.mode);
+    }
     let udp_task = if config.mode.enable_udp() {
         let socket = UdpSocket::bind(listen_addr).await?;
         info!("Listening UDP on: {}", socket.local_addr()?);
@@ -74,7 +78,9 @@ async fn transfer_tcp(listener: TcpListener, current: ServerConfig<SslConfig>) {
             }
             CipherKind::Unknown => error!("unknown cipher kind"),
         },
-        VMess => template::transfer_tcp(listener, current, |c| Ok((c.cipher, c.password.clone())), vmess::tcp::new_codec).await,
+        VMess => {
+            template::transfer_tcp(listener, current, |c| vmess::security_type(c.cipher).map(|_| (c.cipher, c.password.clone())), vmess::tcp::new_codec).await
+        }
         Trojan => template::transfer_tcp(listener, current, |c| Ok(c.password.clone()), trojan::tcp::new_codec).await,
     }
 }
